@@ -732,8 +732,10 @@ def _gen_argtree(rng, profile, depth=0):
             return {"k": "leaf", "dt": F, "sh": []}
         if profile == "int" and r < 0.45:
             dt = I if rng.random() < 0.7 else B
-            sh = ARG_SHAPES[int(rng.integers(0, 5))]
+            sh = () if rng.random() < 0.5 else ARG_SHAPES[int(rng.integers(1, 5))]
             return {"k": "leaf", "dt": dt, "sh": list(sh)}
+        if profile == "int" and r < 0.8:
+            return {"k": "leaf", "dt": F, "sh": []}
         if r < 0.06:
             return {"k": "py"}
         if r < 0.25:
@@ -767,9 +769,10 @@ def arg_leaves(tree, path=""):
 
 
 def arg_kind(spec):
-    """Coarse argument class used in keys: array > int > pytree > scalar."""
+    """Coarse argument class used in keys: array (any leaf with ndim >= 1) > int (integer / boolean scalars)
+    > scalar-pytree > scalar."""
     leaves = [t for a in spec["args"] for _, t in arg_leaves(a)]
-    if any(t["k"] == "leaf" and t["dt"] == F and len(t["sh"]) >= 1 for t in leaves):
+    if any(t["k"] == "leaf" and len(t["sh"]) >= 1 for t in leaves):
         return "array"
     if any(t["k"] == "leaf" and t["dt"] in (I, B) for t in leaves):
         return "int"
@@ -782,7 +785,7 @@ def gen_program(rng, profile, n_nodes, depth=2, allow_fail_ops=True, int_out=Fal
     n_args = int(rng.integers(1, 4))
     args = [_gen_argtree(rng, profile) for _ in range(n_args)]
     leaves = [t for a in args for _, t in arg_leaves(a)]
-    if profile in ("array", "pytree", "int") and not any(
+    if profile in ("array", "pytree") and not any(
         t["k"] == "leaf" and t["dt"] == F and len(t["sh"]) >= 1 for t in leaves
     ):
         sh = ARG_SHAPES[int(rng.integers(2, len(ARG_SHAPES)))]
@@ -828,6 +831,15 @@ def gen_program(rng, profile, n_nodes, depth=2, allow_fail_ops=True, int_out=Fal
         v = getattr(g, fam)()
         if v is not None or len(g.nodes) > before:
             made += 1
+    if int_out and not any(v["dt"] == I and v["sh"] == () and v["id"] >= len(ins) for v in g.vals):
+        # integer-valued program requested: make sure an integer scalar exists
+        x = g.pick(lambda v: v["dt"] == F and len(v["sh"]) >= 1)
+        if x is not None:
+            g.add("argmax", [x], {"axis": None}, I, (), True)
+        else:
+            x = g.pick(lambda v: v["dt"] == F)
+            s0 = x if x["sh"] == () else g.add("sum", [x], {"axis": None, "keep": False}, F, (), x["sz"])
+            g.add("f2i", [s0], {"c": 2.0}, I, (), True)
     body = g.spec([])
     spec = {"args": args, "consts": consts, "body": body}
     spec["out"] = _make_out(rng, g, len(g.nodes), int_out)
